@@ -230,10 +230,10 @@ def run_case(ctx, case):
 
 def run(ctx):
     rng = ctx.rng
-    for _ in range(ctx.share(20000 if ctx.quick else 500000)):
+    for _ in range(ctx.share(20000 if ctx.quick else 2000000)):
         run_parse(ctx, gen_parse(rng))
         ctx.count("parses")
-    for _ in range(ctx.share(2000 if ctx.quick else 50000)):
+    for _ in range(ctx.share(2000 if ctx.quick else 300000)):
         run_history(ctx, gen_history(rng))
         ctx.count("histories")
     if _RIG[0] is not None:
